@@ -45,7 +45,7 @@ func main() {
 	flag.StringVar(&rc.funcOnly, "func", "", "verify only this function (debugging)")
 	flag.BoolVar(&rc.dump, "dump", false, "print every obligation with its result")
 	flag.IntVar(&rc.timeout, "timeout", 0, "solver timeout in seconds (0 = tier default)")
-	flag.IntVar(&rc.workers, "workers", 6, "parallel obligations")
+	flag.IntVar(&rc.workers, "workers", 12, "parallel obligations")
 	flag.BoolVar(&rc.noReplay, "no-replay", false, "do not run replays")
 	flag.StringVar(&rc.outDir, "out", "", "scratch/output directory (default <verif>/out)")
 	flag.BoolVar(&rc.noEvidence, "no-evidence", false, "do not write the evidence file (self-test runs on scratch copies)")
@@ -60,7 +60,41 @@ func main() {
 			rc.timeout = 60
 		}
 	}
+	if rc.rerun != "" {
+		os.Exit(rerun(&rc))
+	}
 	os.Exit(run(&rc))
+}
+
+// rerun executes a previously generated replay test again on /repo's current tree.
+func rerun(rc *runConfig) int {
+	path := rc.rerun
+	if strings.HasSuffix(path, ".txt") {
+		path = strings.TrimSuffix(path, ".txt") + "_test.go"
+	}
+	src, err := os.ReadFile(path)
+	if err != nil {
+		fmt.Printf("no replay test for %s: the violation was reported without a concrete input (see the .txt file for the failed obligation and the solver's model)\n", rc.rerun)
+		return 2
+	}
+	name := ""
+	for _, l := range strings.Split(string(src), "\n") {
+		if strings.HasPrefix(l, "func TestReplay_") {
+			name = l[len("func "):strings.Index(l, "(")]
+		}
+	}
+	if name == "" {
+		fmt.Printf("%s is not a replay test\n", path)
+		return 2
+	}
+	out, failed := runReplayTest(rc.repo, path, name, filepath.Dir(path), strings.Contains(name, "lemma"))
+	fmt.Print(out)
+	if failed && strings.Contains(out, "REPLAY-VIOLATION") {
+		fmt.Printf("VIOLATION property=%s replay=%s (reproduced on the current tree)\n", rc.prop, rc.rerun)
+		return 1
+	}
+	fmt.Printf("replay of %s: not reproduced on the current tree\n", rc.rerun)
+	return 0
 }
 
 func run(rc *runConfig) int {
